@@ -418,6 +418,12 @@ fn check_32<A: Alphabet>(case: &Case) -> Verdict {
         if conv.max_index() != o.full.max_index() || conv.unstripe().iter().zip(o.full.unstripe().iter()).any(|(a, b)| !same(*a, *b)) {
             return Verdict::Fail(Failure::new(format!("{}:ScoringMatrix::score", name), "differs from Pipeline::dispatch().score".to_string()));
         }
+        // by-value read-out
+        let v: Vec<f32> = Vec::from(conv.clone());
+        let un = conv.unstripe();
+        if v.len() != un.len() || v.iter().zip(un.iter()).any(|(a, b)| !same(*a, *b)) {
+            return Verdict::Fail(Failure::new(format!("{}:Vec::from(scores)", name), "differs from unstripe()".to_string()));
+        }
         o.name = name;
         outs.push(o);
     }
